@@ -1463,4 +1463,572 @@ theorem idsOK (h : Sound s w sel g) (ok : SelOK s w sel) (p : Uid) (chs : List U
 
 end Sound
 
+/-! ### validations from closure-level facts -/
+
+theorem chkChildren_ok (g : G) (h : Uid) (l : List Uid) (hw : WF g) (hb : Bounded g)
+    (hown : ∀ v ∈ l, g.owner v = none ∨ g.owner v = g.owner h)
+    (hids : IdsOK g h l) (hne : ∀ ch ∈ l, ch ≠ h) (hnd : ∀ ch ∈ l, ¬ TC (par g) h ch)
+    (hlink : ∀ ch ∈ l, ∀ x y, RTC (par g) x ch → RTC (par g) h y → ¬ lnk g x y) : chkChildren g h l = none := by
+  obtain ⟨anc, hanc⟩ := ancF_parent_total g hw hb h
+  refine (chkChildren_none_iff g h l).mpr ⟨hown, (hasId_false_iff g hw hb h l).mpr hids, anc, hanc, ?_⟩
+  intro ch hch
+  obtain ⟨desc, hdesc⟩ := descF_children_total g hw hb ch
+  refine ⟨desc, hdesc, hne ch hch, ?_, ?_⟩
+  · cases hc : desc.contains h with
+    | false => rfl
+    | true => exact absurd ((descF_mem g hw.listed _ ch desc hdesc h).mp (by simpa using hc)) (hnd ch hch)
+  · apply linkedWithAny_eq_false
+    intro x hx y hy
+    have hxt : RTC (par g) x ch := by
+      rcases List.mem_cons.mp hx with rfl | hx
+      · exact RTC.refl
+      · exact ((descF_mem g hw.listed _ ch desc hdesc x).mp hx).toRTC
+    have hpy : RTC (par g) h y := by
+      rcases List.mem_cons.mp hy with rfl | hy
+      · exact RTC.refl
+      · exact (ancF_sound g _ h anc hanc y hy).1.toRTC
+    have := hlink ch hch x y hxt hpy
+    constructor
+    · intro e; exact this (Or.inr e)
+    · intro e; exact this (Or.inl ((hw.sym x y).mpr e))
+
+theorem chkLinks_ok (g : G) (hw : WF g) (hb : Bounded g) (next : Uid → List Uid)
+    (hnext : ∀ v, ∃ r, descF next g.fuel v = some r) (t : Uid) (l : List Uid)
+    (h : ∀ v ∈ l, v ≠ t ∧ ¬ TC (par g) t v ∧ ¬ TC (par g) v t ∧ ¬ TC (fun a b => b ∈ next a) v t) :
+    chkLinks g next t l = none := by
+  obtain ⟨anc, hanc⟩ := ancF_parent_total g hw hb t
+  obtain ⟨desc, hdesc⟩ := descF_children_total g hw hb t
+  unfold chkLinks
+  rw [hanc, hdesc]
+  simp only
+  have hany : ¬ (l.any (fun v => anc.contains v || desc.contains v) = true) := by
+    intro hh
+    obtain ⟨v, hv, hvc⟩ := List.any_eq_true.mp hh
+    obtain ⟨_, h2, h3, _⟩ := h v hv
+    rcases Bool.or_eq_true_iff.mp hvc with e | e
+    · exact h2 (ancF_sound g _ t anc hanc v (by simpa using e)).1
+    · exact h3 ((descF_mem g hw.listed _ t desc hdesc v).mp (by simpa using e))
+  rw [if_neg hany]
+  apply List.findSome?_eq_none_iff.mpr
+  intro v hv
+  obtain ⟨h1, _, _, h4⟩ := h v hv
+  rw [if_neg h1]
+  obtain ⟨r, hr⟩ := hnext v
+  rw [hr]
+  simp only
+  have : r.contains t = false := by
+    cases hc : r.contains t with
+    | false => rfl
+    | true => exact absurd (descF_sound next _ v r hr t (by simpa using hc)) h4
+  rw [this]
+  simp
+
+theorem TC_RTC {α : Type} {r : α → α → Prop} {a b c : α} (h1 : TC r a b) (h2 : RTC r b c) : TC r a c := by
+  rcases h2.cases_eq_or_TC with e | e
+  · exact e ▸ h1
+  · exact h1.trans e
+
+namespace Sound
+variable {s : G} {w : Uid} {sel : List Uid} {g : G}
+
+/-- no link of the current state joins two uids whose sources are in ancestor relation -/
+theorem nolink (h : Sound s w sel g) (ok : SelOK s w sel) {x y : Uid}
+    (hxy : TC (Pj.par s) (src s sel x) (src s sel y)) : ¬ Pj.lnk g x y := by
+  rintro (e | e)
+  · exact (ok.inv.wf.noAncDep _ _ (h.dep x y e)).1 hxy
+  · exact (ok.inv.wf.noAncDep _ _ (h.dep y x e)).2 hxy
+
+theorem setParent_ok (h : Sound s w sel g) (ok : SelOK s w sel) {c : Uid} (hc : IsClone s sel c) (p : Option Uid)
+    (hp : ∀ q, p = some q → IsClone s sel q ∧ s.parent (src s sel c) = some (src s sel q)) :
+    (setParent g c p).2 = none := by
+  have hw := h.ci.1.wf
+  cases p with
+  | none => exact (setParentNone_effect g c hw (h.owner_none ok hc)).1
+  | some q =>
+    obtain ⟨hq, hpar⟩ := hp q rfl
+    have hstep : Pj.par s (src s sel c) (src s sel q) := hpar
+    have hchk : chkParentSome g c q = none := by
+      refine chkParentSome_ok g c q hw h.ci.1.bnd ?_ ?_ ?_ ?_ ?_
+      · intro w' ho
+        rw [h.owner_none ok hc] at ho; cases ho
+      · intro _
+        refine (hasId_false_iff g hw h.ci.1.bnd q [c]).mpr (h.idsOK ok q [c] hq.fresh ?_)
+        intro x hx
+        rw [List.mem_singleton.mp hx]; exact hc.fresh
+      · intro e
+        rw [e] at hstep
+        exact ok.inv.wf.forest _ (TC.single hstep)
+      · intro htc
+        exact ok.inv.wf.forest _ (TC.tail (h.tc_map ok htc hc).2 hstep)
+      · intro x y hx hy
+        apply h.nolink ok
+        exact TC_RTC (TC.of_RTC_step (h.below ok hx hc).2 hstep) (h.above hy hq).2
+    exact (setParentSome_Moved g c q hw hchk).2
+
+theorem setChildren_ok (h : Sound s w sel g) (ok : SelOK s w sel) {c : Uid} (hc : IsClone s sel c) (l : List Uid)
+    (hl : ∀ v ∈ l, IsClone s sel v ∧ s.parent (src s sel v) = some (src s sel c)) :
+    (setChildren g c l).2 = none := by
+  have hw := h.ci.1.wf
+  have hsel : ∀ t ∈ sel, s.hidden t = false := fun t ht => (ok.mem t ht).2.1
+  have hchk : chkChildren g c l = none := by
+    refine chkChildren_ok g c l hw h.ci.1.bnd ?_ ?_ ?_ ?_ ?_
+    · intro v hv
+      exact Or.inl (h.owner_none ok (hl v hv).1)
+    · exact h.idsOK ok c l hc.fresh (fun v hv => (hl v hv).1.fresh)
+    · intro ch hch e
+      have hstep : Pj.par s (src s sel ch) (src s sel c) := (hl ch hch).2
+      rw [e] at hstep
+      exact ok.inv.wf.forest _ (TC.single hstep)
+    · intro ch hch htc
+      have hstep : Pj.par s (src s sel ch) (src s sel c) := (hl ch hch).2
+      exact ok.inv.wf.forest _ (TC.tail (h.tc_map ok htc (hl ch hch).1).2 hstep)
+    · intro ch hch x y hx hy
+      have hstep : Pj.par s (src s sel ch) (src s sel c) := (hl ch hch).2
+      apply h.nolink ok
+      exact TC_RTC (TC.of_RTC_step (h.below ok hx (hl ch hch).1).2 hstep) (h.above hy hc).2
+  exact setChildren_atomic g c l h.ci.1 (fun v hv => (h.ci.clone hsel (hl v hv).1).1) (h.ci.clone hsel hc).2
+    (fun v hv => (h.ci.clone hsel (hl v hv).1).2) hchk
+
+/-- the new WBS root adopts clones -/
+theorem final_ok (h : Sound s w sel g) (ok : SelOK s w sel) (l : List Uid) (hl : ∀ v ∈ l, IsClone s sel v) :
+    (setChildren g (s.n + sel.length) l).2 = none := by
+  have hw := h.ci.1.wf
+  have hsel : ∀ t ∈ sel, s.hidden t = false := fun t ht => (ok.mem t ht).2.1
+  have hr := hw.rootsTop _ h.hidden_root
+  have hfr : Fresh s sel (s.n + sel.length) := ⟨Nat.le_add_right _ _, Nat.le_refl _⟩
+  have htop : ∀ y, RTC (Pj.par g) (s.n + sel.length) y → y = s.n + sel.length :=
+    fun y hy => RTC_of_parent_none g hr.1 hy
+  have hchk : chkChildren g (s.n + sel.length) l = none := by
+    refine chkChildren_ok g _ l hw h.ci.1.bnd ?_ ?_ ?_ ?_ ?_
+    · intro v hv
+      exact Or.inl (h.owner_none ok (hl v hv))
+    · exact h.idsOK ok _ l hfr (fun v hv => (hl v hv).fresh)
+    · intro ch hch e
+      obtain ⟨i, hi, hci⟩ := hl ch hch
+      uomega
+    · intro ch hch htc
+      exact par_TC_none g hr.1 htc
+    · intro ch hch x y _ hy
+      rw [htop y hy]
+      rintro (e | e)
+      · have : s.n + sel.length ∈ g.succs x := (hw.sym x _).mp e
+        have hx := hw.sym x (s.n + sel.length)
+        rw [hr.2.1] at e
+        cases e
+      · have := (hw.sym _ x).mp e
+        rw [hr.2.2] at this
+        cases this
+  have hn : s.n + sel.length < g.n := by rw [h.ci.2.1]; omega
+  exact setChildren_atomic g _ l h.ci.1 (fun v hv => (h.ci.clone hsel (hl v hv)).1) hn
+    (fun v hv => (h.ci.clone hsel (hl v hv)).2) hchk
+
+end Sound
+
+theorem TC_map {α β : Type} {r : α → α → Prop} {r' : β → β → Prop} (f : α → β)
+    (hm : ∀ a b, r a b → r' (f a) (f b)) {a b : α} (h : TC r a b) : TC r' (f a) (f b) := by
+  induction h with
+  | single h => exact TC.single (hm _ _ h)
+  | tail _ h ih => exact TC.tail ih (hm _ _ h)
+
+namespace Sound
+variable {s : G} {w : Uid} {sel : List Uid} {g : G}
+
+theorem tc_up (h : Sound s w sel g) {c y : Uid} (hy : TC (Pj.par g) c y) (hc : IsClone s sel c) :
+    IsClone s sel y ∧ TC (Pj.par s) (src s sel c) (src s sel y) := by
+  rcases hy.head_cases with h1 | ⟨b, h1, h2⟩
+  · obtain ⟨a1, a2⟩ := h.par _ _ hc h1
+    exact ⟨a1, TC.single a2⟩
+  · obtain ⟨a1, a2⟩ := h.par _ _ hc h1
+    obtain ⟨b1, b2⟩ := h.above h2.toRTC a1
+    exact ⟨b1, TC.of_step_RTC a2 b2⟩
+
+theorem setPreds_ok (h : Sound s w sel g) (ok : SelOK s w sel) {c : Uid} (hc : IsClone s sel c) (l : List Uid)
+    (hl : ∀ v ∈ l, src s sel v ∈ s.preds (src s sel c)) : (setPreds g c l).2 = none := by
+  have hw := h.ci.1.wf
+  have hchk : chkLinks g g.preds c l = none := by
+    refine chkLinks_ok g hw h.ci.1.bnd g.preds (descF_preds_total g hw h.ci.1.bnd) c l ?_
+    intro v hv
+    have hd : Pj.dep s (src s sel v) (src s sel c) := hl v hv
+    refine ⟨?_, ?_, ?_, ?_⟩
+    · intro e
+      rw [e] at hd
+      exact ok.inv.wf.dag _ (TC.single hd)
+    · intro htc
+      exact (ok.inv.wf.noAncDep _ _ hd).2 (h.tc_up htc hc).2
+    · intro htc
+      exact (ok.inv.wf.noAncDep _ _ hd).1 (h.tc_map ok htc hc).2
+    · intro htc
+      have h1 : TC (fun a b => Pj.dep s b a) (src s sel v) (src s sel c) :=
+        TC_map (src s sel) (fun a b hab => h.dep b a hab) htc
+      exact ok.inv.wf.dag _ (TC.tail h1.flip hd)
+  unfold Pj.setPreds
+  rw [hchk]
+
+theorem setSuccs_ok (h : Sound s w sel g) (ok : SelOK s w sel) {c : Uid} (hc : IsClone s sel c) (l : List Uid)
+    (hl : ∀ v ∈ l, src s sel v ∈ s.succs (src s sel c)) : (setSuccs g c l).2 = none := by
+  have hw := h.ci.1.wf
+  have hchk : chkLinks g g.succs c l = none := by
+    refine chkLinks_ok g hw h.ci.1.bnd g.succs (descF_succs_total g hw h.ci.1.bnd) c l ?_
+    intro v hv
+    have hd : Pj.dep s (src s sel c) (src s sel v) := (ok.inv.wf.sym _ _).mpr (hl v hv)
+    refine ⟨?_, ?_, ?_, ?_⟩
+    · intro e
+      rw [e] at hd
+      exact ok.inv.wf.dag _ (TC.single hd)
+    · intro htc
+      exact (ok.inv.wf.noAncDep _ _ hd).1 (h.tc_up htc hc).2
+    · intro htc
+      exact (ok.inv.wf.noAncDep _ _ hd).2 (h.tc_map ok htc hc).2
+    · intro htc
+      have h1 : TC (Pj.dep s) (src s sel v) (src s sel c) :=
+        TC_map (src s sel) (fun a b hab => h.dep a b ((hw.sym a b).mpr hab)) htc
+      exact ok.inv.wf.dag _ (TC.tail h1 hd)
+  unfold Pj.setSuccs
+  rw [hchk]
+
+end Sound
+
+/-! ### upper bounds on the effect of the hierarchy setters on `parent` -/
+
+theorem setParentSome_parent_sub (g : G) (v h x y : Uid) (hx : (setParentSome g v h).1.parent x = some y) :
+    g.parent x = some y ∨ (x = v ∧ y = h) := by
+  rcases setParentSome_cases' g v h with ⟨e, he⟩ | ⟨sub, _, he⟩
+  · rw [he] at hx; exact Or.inl hx
+  · rw [he] at hx
+    simp only at hx
+    rw [(appStep_fields _ _ _).1, (ownStep_fields _ _ _).1, (parStep_fields _ _ _).1, (detachOld_fields g v).1] at hx
+    by_cases e : x = v
+    · subst e
+      rw [upd_same] at hx
+      exact Or.inr ⟨rfl, (Option.some.inj hx).symm⟩
+    · rw [upd_other _ _ _ _ e] at hx
+      exact Or.inl hx
+
+theorem foldSetParent_parent_sub (h : Uid) : ∀ (vs : List Uid) (g : G) (x y : Uid),
+    (foldSetParent g vs h).1.parent x = some y → g.parent x = some y ∨ (x ∈ vs ∧ y = h) := by
+  intro vs
+  induction vs with
+  | nil => intro g x y hx; exact Or.inl hx
+  | cons v vs ih =>
+    intro g x y hx
+    unfold foldSetParent at hx
+    have h1 := setParentSome_parent_sub g v h x y
+    have hsp' : setParent g v (some h) = setParentSome g v h := rfl
+    rcases hsp : setParent g v (some h) with ⟨g1, e⟩
+    rw [hsp] at hx
+    rw [← hsp', hsp] at h1
+    cases e with
+    | some e =>
+      rcases h1 hx with h2 | ⟨h2, h3⟩
+      · exact Or.inl h2
+      · exact Or.inr ⟨h2 ▸ List.mem_cons_self, h3⟩
+    | none =>
+      rcases ih g1 x y hx with h2 | ⟨h2, h3⟩
+      · rcases h1 h2 with h4 | ⟨h4, h5⟩
+        · exact Or.inl h4
+        · exact Or.inr ⟨h4 ▸ List.mem_cons_self, h5⟩
+      · exact Or.inr ⟨List.mem_cons_of_mem _ h2, h3⟩
+
+theorem setChildren_parent_sub (g : G) (h : Uid) (l : List Uid) (x y : Uid)
+    (hx : (setChildren g h l).1.parent x = some y) : g.parent x = some y ∨ (x ∈ l ∧ y = h) := by
+  unfold setChildren at hx
+  split at hx
+  · exact Or.inl hx
+  · rcases releaseChildren_cases g h l with he | ⟨subs, _, he⟩
+    · rw [he] at hx; exact Or.inl hx
+    · rw [he] at hx
+      rcases foldSetParent_parent_sub h l _ x y hx with h1 | h1
+      · left
+        have h2 : (if (g.children h).contains x then none else g.parent x) = some y := h1
+        split at h2
+        · cases h2
+        · exact h2
+      · exact Or.inr h1
+
+/-! ### the setter calls preserve soundness -/
+
+namespace Sound
+variable {s : G} {w : Uid} {sel : List Uid} {g : G}
+
+theorem isClone_visible (ok : SelOK s w sel) : ∀ t ∈ sel, s.hidden t = false := fun t ht => (ok.mem t ht).2.1
+
+theorem setParent_sound (h : Sound s w sel g) (ok : SelOK s w sel) {c : Uid} (hc : IsClone s sel c) (p : Option Uid)
+    (hp : ∀ q, p = some q → IsClone s sel q ∧ s.parent (src s sel c) = some (src s sel q)) :
+    Sound s w sel (setParent g c p).1 := by
+  have hk : OpKind s w sel (fun g => setParent g c p) := OpKind.par c p hc (fun q hq => (hp q hq).1)
+  have hacc := h.setParent_ok ok hc p hp
+  have hpar : (setParent g c p).1.parent = upd g.parent c p := by
+    cases p with
+    | none => exact (setParentNone_effect g c h.ci.1.wf (h.owner_none ok hc)).2.1
+    | some q =>
+      have : setParentSome g c q = ((setParentSome g c q).1, none) := by
+        have : (setParentSome g c q).2 = none := hacc
+        rw [← this]
+      exact (setParentSome_effect g _ c q h.ci.1.wf this).1
+  refine ⟨hk.cinv (isClone_visible ok) g h.ci, hk.cframe ok.inv.bnd g h.fr, ?_, ?_⟩
+  · intro x y hx hxy
+    rw [hpar] at hxy
+    by_cases e : x = c
+    · subst e
+      rw [upd_same] at hxy
+      exact hp y hxy
+    · rw [upd_other _ _ _ _ e] at hxy
+      exact h.par x y hx hxy
+  · intro a b hab
+    rw [(setParent_links g c p).1] at hab
+    exact h.lnk a b hab
+
+theorem setChildren_sound (h : Sound s w sel g) (ok : SelOK s w sel) {c : Uid} (hc : IsClone s sel c) (l : List Uid)
+    (hl : ∀ v ∈ l, IsClone s sel v ∧ s.parent (src s sel v) = some (src s sel c)) :
+    Sound s w sel (setChildren g c l).1 := by
+  have hk : OpKind s w sel (fun g => setChildren g c l) := OpKind.chi c l (Or.inl hc) (fun v hv => (hl v hv).1)
+  refine ⟨hk.cinv (isClone_visible ok) g h.ci, hk.cframe ok.inv.bnd g h.fr, ?_, ?_⟩
+  · intro x y hx hxy
+    rcases setChildren_parent_sub g c l x y hxy with h1 | ⟨h1, h2⟩
+    · exact h.par x y hx h1
+    · rw [h2]
+      exact ⟨hc, (hl x h1).2⟩
+  · intro a b hab
+    rw [(setChildren_links g c l).1] at hab
+    exact h.lnk a b hab
+
+theorem setPreds_sound (h : Sound s w sel g) (ok : SelOK s w sel) {c : Uid} (hc : IsClone s sel c) (l : List Uid)
+    (hl : ∀ v ∈ l, (IsClone s sel v ∨ Outside s w v) ∧ src s sel v ∈ s.preds (src s sel c)) :
+    Sound s w sel (setPreds g c l).1 := by
+  have hk : OpKind s w sel (fun g => setPreds g c l) := OpKind.prd c l hc (fun v hv => (hl v hv).1)
+  refine ⟨hk.cinv (isClone_visible ok) g h.ci, hk.cframe ok.inv.bnd g h.fr, ?_, ?_⟩
+  · intro x y hx hxy
+    rw [(setPreds_hier g c l).1] at hxy
+    exact h.par x y hx hxy
+  · intro a b hab hfr
+    rcases setPreds_cases g c l with ⟨e, he⟩ | he
+    · rw [he] at hab; exact h.lnk a b hab hfr
+    · rw [he] at hab
+      have hab' : a ∈ upd g.preds c l b := hab
+      by_cases e : b = c
+      · subst e
+        rw [upd_same] at hab'
+        exact (hl a hab').2
+      · rw [upd_other _ _ _ _ e] at hab'
+        exact h.lnk a b hab' hfr
+
+theorem setSuccs_sound (h : Sound s w sel g) (ok : SelOK s w sel) {c : Uid} (hc : IsClone s sel c) (l : List Uid)
+    (hl : ∀ v ∈ l, (IsClone s sel v ∨ Outside s w v) ∧ src s sel v ∈ s.succs (src s sel c)) :
+    Sound s w sel (setSuccs g c l).1 := by
+  have hk : OpKind s w sel (fun g => setSuccs g c l) := OpKind.suc c l hc (fun v hv => (hl v hv).1)
+  refine ⟨hk.cinv (isClone_visible ok) g h.ci, hk.cframe ok.inv.bnd g h.fr, ?_, ?_⟩
+  · intro x y hx hxy
+    rw [(setSuccs_hier g c l).1] at hxy
+    exact h.par x y hx hxy
+  · intro a b hab hfr
+    rcases setSuccs_cases g c l with ⟨e, he⟩ | he
+    · rw [he] at hab; exact h.lnk a b hab hfr
+    · rw [he] at hab
+      rcases (mem_mirror (g.preds b) c b a l (g.succs c)).mp hab with ⟨_, h1⟩ | ⟨h1, h2⟩
+      · exact h.lnk a b h1 hfr
+      · rcases h2 with h2 | ⟨_, h2⟩
+        · rw [h1]
+          exact (ok.inv.wf.sym _ _).mpr (hl b h2).2
+        · rw [h1]
+          exact h.lnk c b h2 (Or.inl hc.ge)
+
+theorem extend (ok : SelOK s w sel) : Sound s w sel (extend s sel) := by
+  refine ⟨CInv.extend s sel ok.inv (isClone_visible ok), CFrame.extend s w sel ok.inv.bnd, ?_, ?_⟩
+  · intro x y hx hxy
+    have hxy' : s.parent x = some y := hxy
+    have := (ok.inv.bnd.parent x y hxy').1
+    have := hx.ge
+    uomega
+  · intro a b hab hfr
+    have hab' : a ∈ s.preds b := hab
+    have := ok.inv.bnd.preds b a hab'
+    uomega
+
+end Sound
+
+/-! ### the arguments of the four calls for one task -/
+
+theorem parentArg_ok (s : G) (sel : List Uid) (t q : Uid)
+    (hq : (s.pubParent t).bind (cloneOf s.n sel) = some q) :
+    IsClone s sel q ∧ s.parent t = some (src s sel q) := by
+  obtain ⟨tp, h1, h2⟩ := Option.bind_eq_some_iff.mp hq
+  obtain ⟨a, b⟩ := cloneOf_src s sel tp q h2
+  exact ⟨a, b ▸ pubParent_some s t tp h1⟩
+
+theorem childrenArg_ok (s : G) (hw : WF s) (sel : List Uid) (t v : Uid)
+    (hv : v ∈ (s.children t).filterMap (cloneOf s.n sel)) :
+    IsClone s sel v ∧ s.parent (src s sel v) = some t := by
+  obtain ⟨x, hx, hxv⟩ := List.mem_filterMap.mp hv
+  obtain ⟨a, b⟩ := cloneOf_src s sel x v hxv
+  exact ⟨a, b ▸ (hw.listed x t).mpr hx⟩
+
+theorem linkTarget_ok (s : G) (w : Uid) (sel : List Uid) (x v : Uid) (hx : x < s.n ∧ s.hidden x = false)
+    (h : linkTarget s w s.n sel x = some v) : (IsClone s sel v ∨ Outside s w v) ∧ src s sel v = x := by
+  refine ⟨linkTarget_kind s w sel x v hx h, ?_⟩
+  unfold linkTarget at h
+  split at h
+  · exact (cloneOf_src s sel x v h).2
+  · cases h
+    exact src_lt s sel x hx.1
+
+theorem predsArg_ok (s : G) (hi : Inv s) (w : Uid) (sel : List Uid) (t v : Uid)
+    (hv : v ∈ (s.preds t).filterMap (linkTarget s w s.n sel)) :
+    (IsClone s sel v ∨ Outside s w v) ∧ src s sel v ∈ s.preds t := by
+  obtain ⟨x, hx, hxv⟩ := List.mem_filterMap.mp hv
+  have := preds_ok s hi t x hx
+  obtain ⟨a, b⟩ := linkTarget_ok s w sel x v ⟨this.2, this.1⟩ hxv
+  exact ⟨a, b ▸ hx⟩
+
+theorem succsArg_ok (s : G) (hi : Inv s) (w : Uid) (sel : List Uid) (t v : Uid)
+    (hv : v ∈ (s.succs t).filterMap (linkTarget s w s.n sel)) :
+    (IsClone s sel v ∨ Outside s w v) ∧ src s sel v ∈ s.succs t := by
+  obtain ⟨x, hx, hxv⟩ := List.mem_filterMap.mp hv
+  have := succs_ok s hi t x hx
+  obtain ⟨a, b⟩ := linkTarget_ok s w sel x v ⟨this.2, this.1⟩ hxv
+  exact ⟨a, b ▸ hx⟩
+
+/-! ### running the sequence task by task -/
+
+theorem seqOps_append_ok : ∀ (A B : List (G → G × Option Err)) (g : G), (seqOps id g A).2 = none →
+    seqOps id g (A ++ B) = seqOps id (seqOps id g A).1 B := by
+  intro A
+  induction A with
+  | nil => intro B g _; rfl
+  | cons f fs ih =>
+    intro B g h
+    rcases hfs : f g with ⟨g', e⟩
+    cases e with
+    | some e =>
+      rw [seqOps_cons_err f fs g g' e hfs] at h
+      cases h
+    | none =>
+      rw [seqOps_cons_ok f fs g g' hfs] at h
+      rw [List.cons_append, seqOps_cons_ok f (fs ++ B) g g' hfs, seqOps_cons_ok f fs g g' hfs]
+      exact ih B g' h
+
+theorem seqOps_flatMap (Q : Nat → G → Prop) (f : Uid → List (G → G × Option Err)) :
+    ∀ (l : List Uid) (m : Nat) (g : G),
+      (∀ i t g, l[i]? = some t → Q (m + i) g →
+        (seqOps id g (f t)).2 = none ∧ Q (m + i + 1) (seqOps id g (f t)).1) →
+      Q m g → (seqOps id g (l.flatMap f)).2 = none ∧ Q (m + l.length) (seqOps id g (l.flatMap f)).1 := by
+  intro l
+  induction l with
+  | nil => intro m g _ hq; exact ⟨rfl, hq⟩
+  | cons t l ih =>
+    intro m g hstep hq
+    obtain ⟨h1, h2⟩ := hstep 0 t g rfl hq
+    rw [List.flatMap_cons, seqOps_append_ok _ _ g h1]
+    have := ih (m + 1) (seqOps id g (f t)).1 (fun i t' g' hi hq' => by
+      have := hstep (i + 1) t' g' (by simpa using hi) (by rw [← Nat.add_assoc, Nat.add_right_comm]; exact hq')
+      rw [← Nat.add_assoc, Nat.add_right_comm m i 1] at this
+      exact this) h2
+    rw [List.length_cons, ← Nat.add_assoc, Nat.add_right_comm]
+    exact this
+
+theorem seqOps_four (Q0 Q1 Q2 Q3 Q4 : G → Prop) (o1 o2 o3 o4 : G → G × Option Err)
+    (h1 : ∀ g, Q0 g → (o1 g).2 = none ∧ Q1 (o1 g).1) (h2 : ∀ g, Q1 g → (o2 g).2 = none ∧ Q2 (o2 g).1)
+    (h3 : ∀ g, Q2 g → (o3 g).2 = none ∧ Q3 (o3 g).1) (h4 : ∀ g, Q3 g → (o4 g).2 = none ∧ Q4 (o4 g).1)
+    (g : G) (h : Q0 g) : (seqOps id g [o1, o2, o3, o4]).2 = none ∧ Q4 (seqOps id g [o1, o2, o3, o4]).1 := by
+  obtain ⟨a1, b1⟩ := h1 g h
+  obtain ⟨a2, b2⟩ := h2 _ b1
+  obtain ⟨a3, b3⟩ := h3 _ b2
+  obtain ⟨a4, b4⟩ := h4 _ b3
+  have e1 : o1 g = ((o1 g).1, none) := by rw [← a1]
+  have e2 : o2 (o1 g).1 = ((o2 (o1 g).1).1, none) := by rw [← a2]
+  have e3 : o3 (o2 (o1 g).1).1 = ((o3 (o2 (o1 g).1).1).1, none) := by rw [← a3]
+  have e4 : o4 (o3 (o2 (o1 g).1).1).1 = ((o4 (o3 (o2 (o1 g).1).1).1).1, none) := by rw [← a4]
+  rw [seqOps_cons_ok _ _ _ _ e1, seqOps_cons_ok _ _ _ _ e2, seqOps_cons_ok _ _ _ _ e3, seqOps_cons_ok _ _ _ _ e4]
+  exact ⟨rfl, b4⟩
+
+theorem SelOK.perTask_eq {s : G} {w : Uid} {sel : List Uid} (ok : SelOK s w sel) (m : Nat) (hm : m < sel.length) :
+    perTask s w sel (sel.getD m 0) =
+      [ (fun g => setParent g (s.n + m) ((s.pubParent (sel.getD m 0)).bind (cloneOf s.n sel))),
+        (fun g => setChildren g (s.n + m) ((s.children (sel.getD m 0)).filterMap (cloneOf s.n sel))),
+        (fun g => setPreds g (s.n + m) ((s.preds (sel.getD m 0)).filterMap (linkTarget s w s.n sel))),
+        (fun g => setSuccs g (s.n + m) ((s.succs (sel.getD m 0)).filterMap (linkTarget s w s.n sel))) ] := by
+  unfold perTask
+  rw [ok.cloneOf_getD m hm]
+
+theorem getElem?_getD (l : List Uid) (i : Nat) (t : Uid) (h : l[i]? = some t) : i < l.length ∧ t = l.getD i 0 := by
+  obtain ⟨hi, ht⟩ := List.getElem?_eq_some_iff.mp h
+  exact ⟨hi, by rw [getD_eq_getElem' l i hi, ht]⟩
+
+/-- the four calls for one task are accepted and preserve soundness -/
+theorem Sound.task_step {s : G} {w : Uid} {sel : List Uid} (ok : SelOK s w sel) (m : Nat) (hm : m < sel.length)
+    (g : G) (h : Sound s w sel g) :
+    (seqOps id g (perTask s w sel (sel.getD m 0))).2 = none ∧
+    Sound s w sel (seqOps id g (perTask s w sel (sel.getD m 0))).1 := by
+  rw [ok.perTask_eq m hm]
+  have hc : IsClone s sel (s.n + m) := ⟨m, hm, rfl⟩
+  have hsrc : src s sel (s.n + m) = sel.getD m 0 := src_clone s sel m
+  refine seqOps_four (Sound s w sel) (Sound s w sel) (Sound s w sel) (Sound s w sel) (Sound s w sel) _ _ _ _
+    ?_ ?_ ?_ ?_ g h
+  · intro g h
+    have hp : ∀ q, (s.pubParent (sel.getD m 0)).bind (cloneOf s.n sel) = some q →
+        IsClone s sel q ∧ s.parent (src s sel (s.n + m)) = some (src s sel q) := by
+      intro q hq
+      rw [hsrc]; exact parentArg_ok s sel _ q hq
+    exact ⟨h.setParent_ok ok hc _ hp, h.setParent_sound ok hc _ hp⟩
+  · intro g h
+    have hl : ∀ v ∈ (s.children (sel.getD m 0)).filterMap (cloneOf s.n sel),
+        IsClone s sel v ∧ s.parent (src s sel v) = some (src s sel (s.n + m)) := by
+      intro v hv
+      rw [hsrc]; exact childrenArg_ok s ok.inv.wf sel _ v hv
+    exact ⟨h.setChildren_ok ok hc _ hl, h.setChildren_sound ok hc _ hl⟩
+  · intro g h
+    have hl : ∀ v ∈ (s.preds (sel.getD m 0)).filterMap (linkTarget s w s.n sel),
+        (IsClone s sel v ∨ Outside s w v) ∧ src s sel v ∈ s.preds (src s sel (s.n + m)) := by
+      intro v hv
+      rw [hsrc]; exact predsArg_ok s ok.inv w sel _ v hv
+    exact ⟨h.setPreds_ok ok hc _ (fun v hv => (hl v hv).2), h.setPreds_sound ok hc _ hl⟩
+  · intro g h
+    have hl : ∀ v ∈ (s.succs (sel.getD m 0)).filterMap (linkTarget s w s.n sel),
+        (IsClone s sel v ∨ Outside s w v) ∧ src s sel v ∈ s.succs (src s sel (s.n + m)) := by
+      intro v hv
+      rw [hsrc]; exact succsArg_ok s ok.inv w sel _ v hv
+    exact ⟨h.setSuccs_ok ok hc _ (fun v hv => (hl v hv).2), h.setSuccs_sound ok hc _ hl⟩
+
+/-- all per-task calls are accepted; the state before the final call is sound -/
+theorem perTask_all_ok {s : G} {w : Uid} {sel : List Uid} (ok : SelOK s w sel) :
+    (seqOps id (extend s sel) (sel.flatMap (perTask s w sel))).2 = none ∧
+    Sound s w sel (seqOps id (extend s sel) (sel.flatMap (perTask s w sel))).1 := by
+  have := seqOps_flatMap (fun _ g => Sound s w sel g) (perTask s w sel) sel 0 (extend s sel) ?_ (Sound.extend ok)
+  · exact this
+  · intro i t g hi hq
+    obtain ⟨hi', rfl⟩ := getElem?_getD sel i t hi
+    exact Sound.task_step ok i hi' g hq
+
+theorem SelOK.of_args (s : G) (w : Uid) (roots : List Uid) (subs : List (List Uid)) (hi : Inv s)
+    (hwbs : s.hidden w = true)
+    (hm : ∀ r ∈ roots, s.owner r = some w ∧ s.hidden r = false)
+    (h : roots.mapM (fun r => subtreeF s.children s.fuel r) = some subs) :
+    SelOK s w (dedupFirst subs.flatten) := by
+  refine ⟨hi, hwbs, nodup_eraseDups _, ?_⟩
+  intro t ht
+  obtain ⟨r, hr, hx⟩ := (mem_sel_iff s hi.wf roots subs h t).mp ht
+  have ho : s.owner t = some w := (owner_of_RTC s hi.own.inherit hx).trans (hm r hr).1
+  exact ⟨ho, below_not_hidden s hi.wf (hm r hr).2 hx, (hi.bnd.owner t w ho).1⟩
+
+theorem cloneSel_accepted (s : G) (w : Uid) (roots : List Uid) (hi : Inv s) (hwbs : s.hidden w = true)
+    (hm : ∀ r ∈ roots, s.owner r = some w ∧ s.hidden r = false) : (cloneSel s w roots).2.1 = none := by
+  obtain ⟨subs, hsubs⟩ := mapM_total (fun r => subtreeF s.children s.fuel r) roots
+    (fun a _ => subtreeF_children_total s hi.wf hi.bnd a)
+  have ok := SelOK.of_args s w roots subs hi hwbs hm hsubs
+  rw [cloneSel_eq s w roots subs hsubs]
+  show (seqOps id _ (cloneOps s w roots _)).2 = none
+  unfold cloneOps
+  obtain ⟨h1, h2⟩ := perTask_all_ok ok
+  rw [seqOps_append_ok _ _ _ h1]
+  have h3 := h2.final_ok ok (roots.filterMap (cloneOf s.n (dedupFirst subs.flatten)))
+    (filterMap_cloneOf_isClone s _ roots)
+  have e : finalOp s roots (dedupFirst subs.flatten) (seqOps id (extend s (dedupFirst subs.flatten))
+      ((dedupFirst subs.flatten).flatMap (perTask s w (dedupFirst subs.flatten)))).1 =
+      ((finalOp s roots (dedupFirst subs.flatten) (seqOps id (extend s (dedupFirst subs.flatten))
+      ((dedupFirst subs.flatten).flatMap (perTask s w (dedupFirst subs.flatten)))).1).1, none) := by
+    have : (finalOp s roots (dedupFirst subs.flatten) (seqOps id (extend s (dedupFirst subs.flatten))
+      ((dedupFirst subs.flatten).flatMap (perTask s w (dedupFirst subs.flatten)))).1).2 = none := h3
+    rw [← this]
+  rw [seqOps_cons_ok _ _ _ _ e]
+  rfl
+
 end Pj
